@@ -87,3 +87,177 @@ VARIANTS = [
 		logger.Info("Timestamp verification disabled: no tsa trust store is configured in trust policy")
 	}'''),
 ]
+
+# ---------------------------------------------------------------------------------------------------------------------
+# Refactored shapes of the same behaviour (each a list of edits on the base tree), and the same shapes with the property
+# broken. _mut rewrites the replacement text of exactly one edit of a shape.
+def _mut(edits, old, new, also=()):
+    n = sum(r.count(old) for _, _, r in edits)
+    assert n == 1, (n, old)
+    res = [(f, a, r.replace(old, new)) for f, a, r in edits]
+    return res + list(also)
+
+# the three per-certificate loops of verifyTimestamp extracted into helper functions
+SHAPE_HELPERS = [
+ (V,
+  '\tif performTimestampVerification &&\n\t\tsignatureVerification.VerifyTimestamp == trustpolicy.OptionAfterCertExpiry {\n\t\t// check if signing cert chain has expired\n\t\tvar expired bool\n\t\tfor _, cert := range signerInfo.CertificateChain {\n\t\t\tif timeOfVerification.After(cert.NotAfter) {\n\t\t\t\texpired = true\n\t\t\t\tbreak\n\t\t\t}\n\t\t}\n\t\tif !expired {\n\t\t\tlogger.Infof("Timestamp verification disabled: verifyTimestamp is set to %q and signing cert chain unexpired", trustpolicy.OptionAfterCertExpiry)\n\t\t\tperformTimestampVerification = false\n\t\t}\n',
+  '\tif performTimestampVerification &&\n\t\tsignatureVerification.VerifyTimestamp == trustpolicy.OptionAfterCertExpiry {\n\t\t// check if signing cert chain has expired\n\t\tif !isCertChainExpiredAt(signerInfo.CertificateChain, timeOfVerification) {\n\t\t\tlogger.Infof("Timestamp verification disabled: verifyTimestamp is set to %q and signing cert chain unexpired", trustpolicy.OptionAfterCertExpiry)\n\t\t\tperformTimestampVerification = false\n\t\t}\n'),
+ (V,
+  '\t// timestamp verification disabled, signing cert chain MUST be valid\n\t// at time of verification\n\tif !performTimestampVerification {\n\t\tfor _, cert := range signerInfo.CertificateChain {\n\t\t\tif timeOfVerification.Before(cert.NotBefore) {\n\t\t\t\treturn fmt.Errorf("verification time is before certificate %q validity period, it will be valid from %q", cert.Subject, cert.NotBefore.Format(time.RFC1123Z))\n\t\t\t}\n\t\t\tif timeOfVerification.After(cert.NotAfter) {\n\t\t\t\treturn fmt.Errorf("verification time is after certificate %q validity period, it was expired at %q", cert.Subject, cert.NotAfter.Format(time.RFC1123Z))\n\t\t\t}\n\t\t}\n\n\t\t// success\n\t\treturn nil\n\t}\n\n\t// Performing timestamp verification\n',
+  '\t// timestamp verification disabled, signing cert chain MUST be valid\n\t// at time of verification\n\tif !performTimestampVerification {\n\t\treturn validateCertChainAtVerificationTime(signerInfo.CertificateChain, timeOfVerification)\n\t}\n\n\t// Performing timestamp verification\n'),
+ (V,
+  '\t// 4. Check the timestamp against the signing certificate chain\n\tlogger.Debug("Checking the timestamp against the signing certificate chain...")\n\tlogger.Debugf("Timestamp range: %s", timestamp.Format(time.RFC3339))\n\tfor _, cert := range signerInfo.CertificateChain {\n\t\tif !timestamp.BoundedAfter(cert.NotBefore) {\n\t\t\treturn fmt.Errorf("timestamp can be before certificate %q validity period, it will be valid from %q", cert.Subject, cert.NotBefore.Format(time.RFC1123Z))\n\t\t}\n\t\tif !timestamp.BoundedBefore(cert.NotAfter) {\n\t\t\treturn fmt.Errorf("timestamp can be after certificate %q validity period, it was expired at %q", cert.Subject, cert.NotAfter.Format(time.RFC1123Z))\n\t\t}\n\t\tif timeOfVerification.After(cert.NotAfter) {\n\t\t\tlogger.Debugf("Certificate %q expired at %q, but timestamp is within certificate validity period", cert.Subject, cert.NotAfter.Format(time.RFC1123Z))\n\t\t}\n\t}\n\n\t// 5. Perform the timestamping certificate chain revocation check\n',
+  '\t// 4. Check the timestamp against the signing certificate chain\n\tlogger.Debug("Checking the timestamp against the signing certificate chain...")\n\tlogger.Debugf("Timestamp range: %s", timestamp.Format(time.RFC3339))\n\tif err := validateCertChainAtTimestamp(logger, signerInfo.CertificateChain, timestamp, timeOfVerification); err != nil {\n\t\treturn err\n\t}\n\n\t// 5. Perform the timestamping certificate chain revocation check\n'),
+ (V,
+  '\tlogger.Debug("Timestamp verification: Success")\n\treturn nil\n}\n',
+  '\tlogger.Debug("Timestamp verification: Success")\n\treturn nil\n}\n\n// isCertChainExpiredAt reports whether at least one certificate of certChain\n// has expired at time t.\nfunc isCertChainExpiredAt(certChain []*x509.Certificate, t time.Time) bool {\n\tfor _, cert := range certChain {\n\t\tif t.After(cert.NotAfter) {\n\t\t\treturn true\n\t\t}\n\t}\n\treturn false\n}\n\n// validateCertChainAtVerificationTime checks that every certificate of\n// certChain is within its validity period at timeOfVerification. It is used\n// when timestamp verification is disabled.\nfunc validateCertChainAtVerificationTime(certChain []*x509.Certificate, timeOfVerification time.Time) error {\n\tfor _, cert := range certChain {\n\t\tif timeOfVerification.Before(cert.NotBefore) {\n\t\t\treturn fmt.Errorf("verification time is before certificate %q validity period, it will be valid from %q", cert.Subject, cert.NotBefore.Format(time.RFC1123Z))\n\t\t}\n\t\tif timeOfVerification.After(cert.NotAfter) {\n\t\t\treturn fmt.Errorf("verification time is after certificate %q validity period, it was expired at %q", cert.Subject, cert.NotAfter.Format(time.RFC1123Z))\n\t\t}\n\t}\n\n\t// success\n\treturn nil\n}\n\n// validateCertChainAtTimestamp checks that the time range of timestamp lies\n// inside the validity period of every certificate of certChain.\nfunc validateCertChainAtTimestamp(logger log.Logger, certChain []*x509.Certificate, timestamp *tspclient.Timestamp, timeOfVerification time.Time) error {\n\tfor _, cert := range certChain {\n\t\tif !timestamp.BoundedAfter(cert.NotBefore) {\n\t\t\treturn fmt.Errorf("timestamp can be before certificate %q validity period, it will be valid from %q", cert.Subject, cert.NotBefore.Format(time.RFC1123Z))\n\t\t}\n\t\tif !timestamp.BoundedBefore(cert.NotAfter) {\n\t\t\treturn fmt.Errorf("timestamp can be after certificate %q validity period, it was expired at %q", cert.Subject, cert.NotAfter.Format(time.RFC1123Z))\n\t\t}\n\t\tif timeOfVerification.After(cert.NotAfter) {\n\t\t\tlogger.Debugf("Certificate %q expired at %q, but timestamp is within certificate validity period", cert.Subject, cert.NotAfter.Format(time.RFC1123Z))\n\t\t}\n\t}\n\treturn nil\n}\n'),
+]
+# single exit with an error variable (verifyExpiry, verifyAuthenticTimestamp: switch + break), tag-less switches, flag initialised from tsaEnabled
+SHAPE_SINGLE_EXIT = [
+ (V,
+  '}\n\nfunc verifyExpiry(outcome *notation.VerificationOutcome) *notation.ValidationResult {\n\tif expiry := outcome.EnvelopeContent.SignerInfo.SignedAttributes.Expiry; !expiry.IsZero() && !time.Now().Before(expiry) {\n\t\treturn &notation.ValidationResult{\n\t\t\tError:  fmt.Errorf("digital signature has expired on %q", expiry.Format(time.RFC1123Z)),\n\t\t\tType:   trustpolicy.TypeExpiry,\n\t\t\tAction: outcome.VerificationLevel.Enforcement[trustpolicy.TypeExpiry],\n\t\t}\n\t}\n\n\treturn &notation.ValidationResult{\n\t\tType:   trustpolicy.TypeExpiry,\n\t\tAction: outcome.VerificationLevel.Enforcement[trustpolicy.TypeExpiry],\n\t}\n',
+  '}\n\nfunc verifyExpiry(outcome *notation.VerificationOutcome) *notation.ValidationResult {\n\tvar expiryErr error\n\texpiry := outcome.EnvelopeContent.SignerInfo.SignedAttributes.Expiry\n\tif !expiry.IsZero() {\n\t\t// a signature without expiry never expires\n\t\tif !time.Now().Before(expiry) {\n\t\t\texpiryErr = fmt.Errorf("digital signature has expired on %q", expiry.Format(time.RFC1123Z))\n\t\t}\n\t}\n\n\treturn &notation.ValidationResult{\n\t\tError:  expiryErr,\n\t\tType:   trustpolicy.TypeExpiry,\n\t\tAction: outcome.VerificationLevel.Enforcement[trustpolicy.TypeExpiry],\n\t}\n'),
+ (V,
+  '\tlogger := log.GetLogger(ctx)\n\n\tsignerInfo := outcome.EnvelopeContent.SignerInfo\n\t// under signing scheme notary.x509\n\tif signerInfo.SignedAttributes.SigningScheme == signature.SigningSchemeX509 {\n\t\tlogger.Debug("Under signing scheme notary.x509...")\n\t\treturn &notation.ValidationResult{\n\t\t\tError:  verifyTimestamp(ctx, policyName, trustStores, signatureVerification, x509TrustStore, r, outcome),\n\t\t\tType:   trustpolicy.TypeAuthenticTimestamp,\n\t\t\tAction: outcome.VerificationLevel.Enforcement[trustpolicy.TypeAuthenticTimestamp],\n\t\t}\n\t}\n\n\t// under signing scheme notary.x509.signingAuthority\n\tlogger.Debug("Under signing scheme notary.x509.signingAuthority...")\n\tauthenticSigningTime := signerInfo.SignedAttributes.SigningTime\n\tfor _, cert := range signerInfo.CertificateChain {\n\t\tif authenticSigningTime.Before(cert.NotBefore) || authenticSigningTime.After(cert.NotAfter) {\n\t\t\treturn &notation.ValidationResult{\n\t\t\t\tError:  fmt.Errorf("certificate %q was not valid when the digital signature was produced at %q", cert.Subject, authenticSigningTime.Format(time.RFC1123Z)),\n\t\t\t\tType:   trustpolicy.TypeAuthenticTimestamp,\n\t\t\t\tAction: outcome.VerificationLevel.Enforcement[trustpolicy.TypeAuthenticTimestamp],\n\t\t\t}\n\t\t}\n\t}\n\n\t// success\n\treturn &notation.ValidationResult{\n\t\tType:   trustpolicy.TypeAuthenticTimestamp,\n\t\tAction: outcome.VerificationLevel.Enforcement[trustpolicy.TypeAuthenticTimestamp],\n\t}\n',
+  '\tlogger := log.GetLogger(ctx)\n\n\tsignerInfo := outcome.EnvelopeContent.SignerInfo\n\tvar timestampErr error\n\tswitch signerInfo.SignedAttributes.SigningScheme {\n\tcase signature.SigningSchemeX509:\n\t\t// under signing scheme notary.x509\n\t\tlogger.Debug("Under signing scheme notary.x509...")\n\t\ttimestampErr = verifyTimestamp(ctx, policyName, trustStores, signatureVerification, x509TrustStore, r, outcome)\n\tdefault:\n\t\t// under signing scheme notary.x509.signingAuthority\n\t\tlogger.Debug("Under signing scheme notary.x509.signingAuthority...")\n\t\tauthenticSigningTime := signerInfo.SignedAttributes.SigningTime\n\t\tfor _, cert := range signerInfo.CertificateChain {\n\t\t\tif authenticSigningTime.Before(cert.NotBefore) || authenticSigningTime.After(cert.NotAfter) {\n\t\t\t\ttimestampErr = fmt.Errorf("certificate %q was not valid when the digital signature was produced at %q", cert.Subject, authenticSigningTime.Format(time.RFC1123Z))\n\t\t\t\tbreak\n\t\t\t}\n\t\t}\n\t}\n\n\t// timestampErr is nil on success\n\treturn &notation.ValidationResult{\n\t\tError:  timestampErr,\n\t\tType:   trustpolicy.TypeAuthenticTimestamp,\n\t\tAction: outcome.VerificationLevel.Enforcement[trustpolicy.TypeAuthenticTimestamp],\n\t}\n'),
+ (V,
+  '\tlogger := log.GetLogger(ctx)\n\n\tsignerInfo := outcome.EnvelopeContent.SignerInfo\n\tperformTimestampVerification := true\n\n\t// check if tsa trust store is configured in trust policy\n\ttsaEnabled, err := isTSATrustStoreInPolicy(policyName, trustStores)\n\tif err != nil {\n\t\treturn fmt.Errorf("failed to check tsa trust store configuration in turst policy with error: %w", err)\n\t}\n\tif !tsaEnabled {\n\t\tlogger.Info("Timestamp verification disabled: no tsa trust store is configured in trust policy")\n\t\tperformTimestampVerification = false\n\t}\n\n\t// check based on \'verifyTimestamp\' field\n\ttimeOfVerification := time.Now()\n\tif performTimestampVerification &&\n\t\tsignatureVerification.VerifyTimestamp == trustpolicy.OptionAfterCertExpiry {\n\t\t// check if signing cert chain has expired\n\t\tvar expired bool\n\t\tfor _, cert := range signerInfo.CertificateChain {\n\t\t\tif timeOfVerification.After(cert.NotAfter) {\n\t\t\t\texpired = true\n\t\t\t\tbreak\n\t\t\t}\n\t\t}\n\t\tif !expired {\n\t\t\tlogger.Infof("Timestamp verification disabled: verifyTimestamp is set to %q and signing cert chain unexpired", trustpolicy.OptionAfterCertExpiry)\n\t\t\tperformTimestampVerification = false\n\t\t}\n\t}\n\n',
+  '\tlogger := log.GetLogger(ctx)\n\n\tsignerInfo := outcome.EnvelopeContent.SignerInfo\n\n\t// check if tsa trust store is configured in trust policy\n\ttsaEnabled, err := isTSATrustStoreInPolicy(policyName, trustStores)\n\tif err != nil {\n\t\treturn fmt.Errorf("failed to check tsa trust store configuration in turst policy with error: %w", err)\n\t}\n\t// without a tsa trust store, timestamp verification is never performed\n\tperformTimestampVerification := tsaEnabled\n\tif !tsaEnabled {\n\t\tlogger.Info("Timestamp verification disabled: no tsa trust store is configured in trust policy")\n\t}\n\n\t// check based on \'verifyTimestamp\' field\n\ttimeOfVerification := time.Now()\n\tif tsaEnabled && signatureVerification.VerifyTimestamp == trustpolicy.OptionAfterCertExpiry {\n\t\t// perform timestamp verification only if signing cert chain has\n\t\t// expired\n\t\tperformTimestampVerification = false\n\t\tfor _, cert := range signerInfo.CertificateChain {\n\t\t\tif timeOfVerification.After(cert.NotAfter) {\n\t\t\t\tperformTimestampVerification = true\n\t\t\t\tbreak\n\t\t\t}\n\t\t}\n\t\tif !performTimestampVerification {\n\t\t\tlogger.Infof("Timestamp verification disabled: verifyTimestamp is set to %q and signing cert chain unexpired", trustpolicy.OptionAfterCertExpiry)\n\t\t}\n\t}\n\n'),
+ (V,
+  '\t// at time of verification\n\tif !performTimestampVerification {\n\t\tfor _, cert := range signerInfo.CertificateChain {\n\t\t\tif timeOfVerification.Before(cert.NotBefore) {\n\t\t\t\treturn fmt.Errorf("verification time is before certificate %q validity period, it will be valid from %q", cert.Subject, cert.NotBefore.Format(time.RFC1123Z))\n\t\t\t}\n\t\t\tif timeOfVerification.After(cert.NotAfter) {\n\t\t\t\treturn fmt.Errorf("verification time is after certificate %q validity period, it was expired at %q", cert.Subject, cert.NotAfter.Format(time.RFC1123Z))\n\t\t\t}\n\t\t}\n',
+  '\t// at time of verification\n\tif !performTimestampVerification {\n\t\tfor _, cert := range signerInfo.CertificateChain {\n\t\t\tswitch {\n\t\t\tcase timeOfVerification.Before(cert.NotBefore):\n\t\t\t\treturn fmt.Errorf("verification time is before certificate %q validity period, it will be valid from %q", cert.Subject, cert.NotBefore.Format(time.RFC1123Z))\n\t\t\tcase timeOfVerification.After(cert.NotAfter):\n\t\t\t\treturn fmt.Errorf("verification time is after certificate %q validity period, it was expired at %q", cert.Subject, cert.NotAfter.Format(time.RFC1123Z))\n\t\t\t}\n\t\t}\n'),
+ (V,
+  '\tlogger.Debug("Checking the timestamp against the signing certificate chain...")\n\tlogger.Debugf("Timestamp range: %s", timestamp.Format(time.RFC3339))\n\tfor _, cert := range signerInfo.CertificateChain {\n\t\tif !timestamp.BoundedAfter(cert.NotBefore) {\n\t\t\treturn fmt.Errorf("timestamp can be before certificate %q validity period, it will be valid from %q", cert.Subject, cert.NotBefore.Format(time.RFC1123Z))\n\t\t}\n\t\tif !timestamp.BoundedBefore(cert.NotAfter) {\n\t\t\treturn fmt.Errorf("timestamp can be after certificate %q validity period, it was expired at %q", cert.Subject, cert.NotAfter.Format(time.RFC1123Z))\n\t\t}\n\t\tif timeOfVerification.After(cert.NotAfter) {\n\t\t\tlogger.Debugf("Certificate %q expired at %q, but timestamp is within certificate validity period", cert.Subject, cert.NotAfter.Format(time.RFC1123Z))\n\t\t}\n\t}\n',
+  '\tlogger.Debug("Checking the timestamp against the signing certificate chain...")\n\tlogger.Debugf("Timestamp range: %s", timestamp.Format(time.RFC3339))\n\tfor _, cert := range signerInfo.CertificateChain {\n\t\tswitch {\n\t\tcase !timestamp.BoundedAfter(cert.NotBefore):\n\t\t\treturn fmt.Errorf("timestamp can be before certificate %q validity period, it will be valid from %q", cert.Subject, cert.NotBefore.Format(time.RFC1123Z))\n\t\tcase !timestamp.BoundedBefore(cert.NotAfter):\n\t\t\treturn fmt.Errorf("timestamp can be after certificate %q validity period, it was expired at %q", cert.Subject, cert.NotAfter.Format(time.RFC1123Z))\n\t\tcase timeOfVerification.After(cert.NotAfter):\n\t\t\tlogger.Debugf("Certificate %q expired at %q, but timestamp is within certificate validity period", cert.Subject, cert.NotAfter.Format(time.RFC1123Z))\n\t\t}\n\t}\n'),
+ (V,
+  '\t\treturn fmt.Errorf("failed to check timestamping certificate chain revocation with error: %w", err)\n\t}\n\tfinalResult, problematicCertSubject := revocationFinalResult(certResults, tsaCertChain, logger)\n\tswitch finalResult {\n\tcase revocationresult.ResultOK:\n\t\tlogger.Debug("No verification impacting errors encountered while checking timestamping certificate chain revocation, status is OK")\n\tcase revocationresult.ResultRevoked:\n\t\treturn fmt.Errorf("timestamping certificate with subject %q is revoked", problematicCertSubject)\n\tdefault:\n\t\t// revocationresult.ResultUnknown\n\t\treturn fmt.Errorf("timestamping certificate with subject %q revocation status is unknown", problematicCertSubject)\n\t}\n\n\t// success\n\tlogger.Debug("Timestamp verification: Success")\n',
+  '\t\treturn fmt.Errorf("failed to check timestamping certificate chain revocation with error: %w", err)\n\t}\n\tfinalResult, problematicCertSubject := revocationFinalResult(certResults, tsaCertChain, logger)\n\tif finalResult == revocationresult.ResultRevoked {\n\t\treturn fmt.Errorf("timestamping certificate with subject %q is revoked", problematicCertSubject)\n\t}\n\tif finalResult != revocationresult.ResultOK {\n\t\t// revocationresult.ResultUnknown\n\t\treturn fmt.Errorf("timestamping certificate with subject %q revocation status is unknown", problematicCertSubject)\n\t}\n\tlogger.Debug("No verification impacting errors encountered while checking timestamping certificate chain revocation, status is OK")\n\n\t// success\n\tlogger.Debug("Timestamp verification: Success")\n'),
+]
+# time.Time.Compare, slices.IndexFunc / ContainsFunc with predicates, strings.HasPrefix for the store type
+SHAPE_LIBRARY = [
+ (H,
+  '// isTSATrustStoreInPolicy checks if tsa trust store is configured in\n// trust policy\nfunc isTSATrustStoreInPolicy(policyName string, trustStores []string) (bool, error) {\n\tfor _, trustStore := range trustStores {\n\t\tstoreType, _, found := strings.Cut(trustStore, ":")\n\t\tif !found {\n\t\t\treturn false, truststore.TrustStoreError{Msg: fmt.Sprintf("invalid trust policy statement: %q is missing separator in trust store value %q. The required format is <TrustStoreType>:<TrustStoreName>", policyName, trustStore)}\n\t\t}\n\t\tif truststore.Type(storeType) == truststore.TypeTSA {\n\t\t\treturn true, nil\n\t\t}\n\t}\n',
+  '// isTSATrustStoreInPolicy checks if tsa trust store is configured in\n// trust policy\nfunc isTSATrustStoreInPolicy(policyName string, trustStores []string) (bool, error) {\n\ttsaPrefix := string(truststore.TypeTSA) + ":"\n\tfor _, trustStore := range trustStores {\n\t\tif !strings.Contains(trustStore, ":") {\n\t\t\treturn false, truststore.TrustStoreError{Msg: fmt.Sprintf("invalid trust policy statement: %q is missing separator in trust store value %q. The required format is <TrustStoreType>:<TrustStoreName>", policyName, trustStore)}\n\t\t}\n\t\tif strings.HasPrefix(trustStore, tsaPrefix) {\n\t\t\treturn true, nil\n\t\t}\n\t}\n'),
+ (V,
+  '\t"fmt"\n\t"net/http"\n\t"reflect"\n\t"strings"\n\t"time"\n\n',
+  '\t"fmt"\n\t"net/http"\n\t"reflect"\n\tstdslices "slices"\n\t"strings"\n\t"time"\n\n'),
+ (V,
+  '}\n\nfunc verifyExpiry(outcome *notation.VerificationOutcome) *notation.ValidationResult {\n\tif expiry := outcome.EnvelopeContent.SignerInfo.SignedAttributes.Expiry; !expiry.IsZero() && !time.Now().Before(expiry) {\n\t\treturn &notation.ValidationResult{\n\t\t\tError:  fmt.Errorf("digital signature has expired on %q", expiry.Format(time.RFC1123Z)),\n\t\t\tType:   trustpolicy.TypeExpiry,\n',
+  '}\n\nfunc verifyExpiry(outcome *notation.VerificationOutcome) *notation.ValidationResult {\n\tif expiry := outcome.EnvelopeContent.SignerInfo.SignedAttributes.Expiry; !expiry.IsZero() && time.Now().Compare(expiry) >= 0 {\n\t\treturn &notation.ValidationResult{\n\t\t\tError:  fmt.Errorf("digital signature has expired on %q", expiry.Format(time.RFC1123Z)),\n\t\t\tType:   trustpolicy.TypeExpiry,\n'),
+ (V,
+  '\t// under signing scheme notary.x509.signingAuthority\n\tlogger.Debug("Under signing scheme notary.x509.signingAuthority...")\n\tauthenticSigningTime := signerInfo.SignedAttributes.SigningTime\n\tfor _, cert := range signerInfo.CertificateChain {\n\t\tif authenticSigningTime.Before(cert.NotBefore) || authenticSigningTime.After(cert.NotAfter) {\n\t\t\treturn &notation.ValidationResult{\n\t\t\t\tError:  fmt.Errorf("certificate %q was not valid when the digital signature was produced at %q", cert.Subject, authenticSigningTime.Format(time.RFC1123Z)),\n\t\t\t\tType:   trustpolicy.TypeAuthenticTimestamp,\n\t\t\t\tAction: outcome.VerificationLevel.Enforcement[trustpolicy.TypeAuthenticTimestamp],\n\t\t\t}\n\t\t}\n\t}\n\n',
+  '\t// under signing scheme notary.x509.signingAuthority\n\tlogger.Debug("Under signing scheme notary.x509.signingAuthority...")\n\tauthenticSigningTime := signerInfo.SignedAttributes.SigningTime\n\tinvalidCertIndex := stdslices.IndexFunc(signerInfo.CertificateChain, func(cert *x509.Certificate) bool {\n\t\treturn authenticSigningTime.Compare(cert.NotBefore) < 0 || authenticSigningTime.Compare(cert.NotAfter) > 0\n\t})\n\tif invalidCertIndex >= 0 {\n\t\tcert := signerInfo.CertificateChain[invalidCertIndex]\n\t\treturn &notation.ValidationResult{\n\t\t\tError:  fmt.Errorf("certificate %q was not valid when the digital signature was produced at %q", cert.Subject, authenticSigningTime.Format(time.RFC1123Z)),\n\t\t\tType:   trustpolicy.TypeAuthenticTimestamp,\n\t\t\tAction: outcome.VerificationLevel.Enforcement[trustpolicy.TypeAuthenticTimestamp],\n\t\t}\n\t}\n\n'),
+ (V,
+  '\tif performTimestampVerification &&\n\t\tsignatureVerification.VerifyTimestamp == trustpolicy.OptionAfterCertExpiry {\n\t\t// check if signing cert chain has expired\n\t\tvar expired bool\n\t\tfor _, cert := range signerInfo.CertificateChain {\n\t\t\tif timeOfVerification.After(cert.NotAfter) {\n\t\t\t\texpired = true\n\t\t\t\tbreak\n\t\t\t}\n\t\t}\n\t\tif !expired {\n\t\t\tlogger.Infof("Timestamp verification disabled: verifyTimestamp is set to %q and signing cert chain unexpired", trustpolicy.OptionAfterCertExpiry)\n\t\t\tperformTimestampVerification = false\n',
+  '\tif performTimestampVerification &&\n\t\tsignatureVerification.VerifyTimestamp == trustpolicy.OptionAfterCertExpiry {\n\t\t// check if signing cert chain has expired\n\t\texpired := stdslices.ContainsFunc(signerInfo.CertificateChain, func(cert *x509.Certificate) bool {\n\t\t\treturn timeOfVerification.After(cert.NotAfter)\n\t\t})\n\t\tif !expired {\n\t\t\tlogger.Infof("Timestamp verification disabled: verifyTimestamp is set to %q and signing cert chain unexpired", trustpolicy.OptionAfterCertExpiry)\n\t\t\tperformTimestampVerification = false\n'),
+]
+
+# verifyTimestamp turned into a method of a struct of options; the signer info is passed as a pointer to the caller's copy
+SHAPE_METHOD = [
+ (V, '\t\tlogger.Debug("Under signing scheme notary.x509...")\n\t\treturn &notation.ValidationResult{\n\t\t\tError:  verifyTimestamp(ctx, policyName, trustStores, signatureVerification, x509TrustStore, r, outcome),\n',
+     '\t\tlogger.Debug("Under signing scheme notary.x509...")\n\t\ttsVerifier := timestampVerifier{\n\t\t\tpolicyName:          policyName,\n\t\t\ttrustStores:         trustStores,\n\t\t\tverifyTimestamp:     signatureVerification.VerifyTimestamp,\n\t\t\tx509TrustStore:      x509TrustStore,\n\t\t\trevocationValidator: r,\n\t\t}\n\t\treturn &notation.ValidationResult{\n\t\t\tError:  tsVerifier.verify(ctx, &signerInfo),\n'),
+ (V, 'func verifyTimestamp(ctx context.Context, policyName string, trustStores []string, signatureVerification trustpolicy.SignatureVerification, x509TrustStore truststore.X509TrustStore, r revocation.Validator, outcome *notation.VerificationOutcome) error {\n\tlogger := log.GetLogger(ctx)\n\n\tsignerInfo := outcome.EnvelopeContent.SignerInfo\n',
+     'type timestampVerifier struct {\n\tpolicyName          string\n\ttrustStores         []string\n\tverifyTimestamp     trustpolicy.TimestampOption\n\tx509TrustStore      truststore.X509TrustStore\n\trevocationValidator revocation.Validator\n}\n\nfunc (tv timestampVerifier) verify(ctx context.Context, signerInfo *signature.SignerInfo) error {\n\tlogger := log.GetLogger(ctx)\n\n'),
+ (V, 'tsaEnabled, err := isTSATrustStoreInPolicy(policyName, trustStores)', 'tsaEnabled, err := isTSATrustStoreInPolicy(tv.policyName, tv.trustStores)'),
+ (V, '\t\tsignatureVerification.VerifyTimestamp == trustpolicy.OptionAfterCertExpiry {', '\t\ttv.verifyTimestamp == trustpolicy.OptionAfterCertExpiry {'),
+ (V, 'loadX509TSATrustStores(ctx, outcome.EnvelopeContent.SignerInfo.SignedAttributes.SigningScheme, policyName, trustStores, x509TrustStore)', 'loadX509TSATrustStores(ctx, signerInfo.SignedAttributes.SigningScheme, tv.policyName, tv.trustStores, tv.x509TrustStore)'),
+ (V, 'certResults, err := r.ValidateContext(ctx, revocation.ValidateContextOptions{\n\t\tCertChain: tsaCertChain,', 'certResults, err := tv.revocationValidator.ValidateContext(ctx, revocation.ValidateContextOptions{\n\t\tCertChain: tsaCertChain,'),
+]
+
+VARIANTS += [
+ # --- shape: helpers
+ dict(name='shape-helpers', expect='silent', edits=SHAPE_HELPERS),
+ dict(name='helpers-now-notbefore-dropped', expect='flagged(regime/valid-now)',
+      edits=_mut(SHAPE_HELPERS, '\t\tif timeOfVerification.Before(cert.NotBefore) {\n\t\t\treturn fmt.Errorf("verification time is before certificate %q validity period, it will be valid from %q", cert.Subject, cert.NotBefore.Format(time.RFC1123Z))\n\t\t}\n', '')),
+ dict(name='helpers-now-fed-signing-time', expect='flagged(regime/valid-now)',
+      edits=_mut(SHAPE_HELPERS, 'return validateCertChainAtVerificationTime(signerInfo.CertificateChain, timeOfVerification)', 'return validateCertChainAtVerificationTime(signerInfo.CertificateChain, signerInfo.SignedAttributes.SigningTime)')),
+ dict(name='helpers-now-leaf-only', expect='flagged(regime/valid-now)',
+      edits=_mut(SHAPE_HELPERS, 'return validateCertChainAtVerificationTime(signerInfo.CertificateChain, timeOfVerification)', 'return validateCertChainAtVerificationTime(signerInfo.CertificateChain[:1], timeOfVerification)')),
+ dict(name='helpers-now-verdict-dropped', expect='flagged(regime/valid-now)',
+      edits=_mut(SHAPE_HELPERS, '\t\treturn validateCertChainAtVerificationTime(signerInfo.CertificateChain, timeOfVerification)\n', '\t\tif err := validateCertChainAtVerificationTime(signerInfo.CertificateChain, timeOfVerification); err != nil {\n\t\t\tlogger.Debug(err)\n\t\t}\n\t\treturn nil\n')),
+ dict(name='helpers-now-helper-stops-after-leaf', expect='flagged(regime/valid-now)',
+      edits=_mut(SHAPE_HELPERS, '\t\tif timeOfVerification.After(cert.NotAfter) {\n\t\t\treturn fmt.Errorf("verification time is after certificate %q validity period, it was expired at %q", cert.Subject, cert.NotAfter.Format(time.RFC1123Z))\n\t\t}\n\t}\n\n\t// success\n\treturn nil\n',
+                 '\t\tif timeOfVerification.After(cert.NotAfter) {\n\t\t\treturn fmt.Errorf("verification time is after certificate %q validity period, it was expired at %q", cert.Subject, cert.NotAfter.Format(time.RFC1123Z))\n\t\t}\n\t\tbreak\n\t}\n\n\t// success\n\treturn nil\n')),
+ dict(name='helpers-window-error-ignored', expect='flagged(timestamp/window)',
+      edits=_mut(SHAPE_HELPERS, 'timestamp, timeOfVerification); err != nil {\n\t\treturn err\n\t}', 'timestamp, timeOfVerification); err != nil {\n\t\tlogger.Debug(err)\n\t}')),
+ dict(name='helpers-window-notafter-dropped', expect='flagged(timestamp/window)',
+      edits=_mut(SHAPE_HELPERS, '\t\tif !timestamp.BoundedBefore(cert.NotAfter) {\n\t\t\treturn fmt.Errorf("timestamp can be after certificate %q validity period, it was expired at %q", cert.Subject, cert.NotAfter.Format(time.RFC1123Z))\n\t\t}\n', '')),
+ dict(name='helpers-window-early-success', expect='flagged(timestamp/window)',
+      edits=_mut(SHAPE_HELPERS, '\t\t\tlogger.Debugf("Certificate %q expired at %q, but timestamp is within certificate validity period", cert.Subject, cert.NotAfter.Format(time.RFC1123Z))\n\t\t}\n\t}\n\treturn nil\n',
+                 '\t\t\tlogger.Debugf("Certificate %q expired at %q, but timestamp is within certificate validity period", cert.Subject, cert.NotAfter.Format(time.RFC1123Z))\n\t\t\treturn nil\n\t\t}\n\t}\n\treturn nil\n')),
+ dict(name='helpers-window-other-chain', expect='flagged(timestamp/window)',
+      edits=_mut(SHAPE_HELPERS, 'validateCertChainAtTimestamp(logger, signerInfo.CertificateChain, timestamp, timeOfVerification)', 'validateCertChainAtTimestamp(logger, tsaCertChain, timestamp, timeOfVerification)')),
+ dict(name='helpers-expired-answer-inverted', expect='flagged(regime/decision-table)',
+      edits=_mut(SHAPE_HELPERS, '\t\tif t.After(cert.NotAfter) {\n\t\t\treturn true\n\t\t}\n\t}\n\treturn false\n', '\t\tif t.After(cert.NotAfter) {\n\t\t\treturn false\n\t\t}\n\t}\n\treturn true\n')),
+ dict(name='helpers-expired-judged-by-notbefore', expect='flagged(regime/decision-table)',
+      edits=_mut(SHAPE_HELPERS, '\t\tif t.After(cert.NotAfter) {\n\t\t\treturn true\n', '\t\tif t.After(cert.NotBefore) {\n\t\t\treturn true\n')),
+ dict(name='helpers-expired-at-signing-time', expect='flagged(regime/decision-table)',
+      edits=_mut(SHAPE_HELPERS, 'if !isCertChainExpiredAt(signerInfo.CertificateChain, timeOfVerification) {', 'if !isCertChainExpiredAt(signerInfo.CertificateChain, signerInfo.SignedAttributes.SigningTime) {')),
+ dict(name='helpers-expired-answer-negated-twice', expect='flagged(regime/decision-table)',
+      edits=_mut(SHAPE_HELPERS, 'if !isCertChainExpiredAt(signerInfo.CertificateChain, timeOfVerification) {', 'if isCertChainExpiredAt(signerInfo.CertificateChain, timeOfVerification) {')),
+ # --- shape: single exit / error variable
+ dict(name='shape-single-exit', expect='silent', edits=SHAPE_SINGLE_EXIT),
+ dict(name='single-exit-expiry-after', expect='flagged(expiry/clock)',
+      edits=_mut(SHAPE_SINGLE_EXIT, '\t\tif !time.Now().Before(expiry) {\n', '\t\tif time.Now().After(expiry) {\n')),
+ dict(name='single-exit-expiry-error-not-reported', expect='flagged(expiry/clock)',
+      edits=_mut(SHAPE_SINGLE_EXIT, '\t\tError:  expiryErr,\n', '', also=[(V, '\t\t\texpiryErr = fmt.Errorf("digital signature has expired on %q", expiry.Format(time.RFC1123Z))\n', '\t\t\texpiryErr = fmt.Errorf("digital signature has expired on %q", expiry.Format(time.RFC1123Z))\n\t\t\tlog.GetLogger(context.Background()).Debug(expiryErr)\n')])),
+ dict(name='single-exit-expiry-error-cleared', expect='flagged(expiry/clock)',
+      edits=_mut(SHAPE_SINGLE_EXIT, '\treturn &notation.ValidationResult{\n\t\tError:  expiryErr,\n', '\tif outcome.VerificationLevel.Name == "audit" {\n\t\texpiryErr = nil\n\t}\n\treturn &notation.ValidationResult{\n\t\tError:  expiryErr,\n')),
+ dict(name='single-exit-sa-notafter-dropped', expect='flagged(signing-authority/window)',
+      edits=_mut(SHAPE_SINGLE_EXIT, 'if authenticSigningTime.Before(cert.NotBefore) || authenticSigningTime.After(cert.NotAfter) {', 'if authenticSigningTime.Before(cert.NotBefore) {')),
+ dict(name='single-exit-sa-break-without-error', expect='flagged(signing-authority/window)',
+      edits=_mut(SHAPE_SINGLE_EXIT, '\t\t\t\ttimestampErr = fmt.Errorf("certificate %q was not valid when the digital signature was produced at %q", cert.Subject, authenticSigningTime.Format(time.RFC1123Z))\n\t\t\t\tbreak\n',
+                 '\t\t\t\tlogger.Debugf("certificate %q was not valid when the digital signature was produced at %q", cert.Subject, authenticSigningTime.Format(time.RFC1123Z))\n\t\t\t\tbreak\n')),
+ dict(name='single-exit-sa-leaf-only', expect='flagged(signing-authority/window)',
+      edits=_mut(SHAPE_SINGLE_EXIT, '\t\tauthenticSigningTime := signerInfo.SignedAttributes.SigningTime\n\t\tfor _, cert := range signerInfo.CertificateChain {', '\t\tauthenticSigningTime := signerInfo.SignedAttributes.SigningTime\n\t\tfor _, cert := range signerInfo.CertificateChain[:1] {')),
+ dict(name='single-exit-x509-error-dropped', expect='flagged(dispatch/)',
+      edits=_mut(SHAPE_SINGLE_EXIT, '\t\ttimestampErr = verifyTimestamp(ctx, policyName, trustStores, signatureVerification, x509TrustStore, r, outcome)\n', '\t\tif err := verifyTimestamp(ctx, policyName, trustStores, signatureVerification, x509TrustStore, r, outcome); err != nil {\n\t\t\tlogger.Debug(err)\n\t\t}\n')),
+ dict(name='single-exit-x509-falls-into-signing-authority', expect='flagged(dispatch/)',
+      edits=_mut(SHAPE_SINGLE_EXIT, '\tswitch signerInfo.SignedAttributes.SigningScheme {\n\tcase signature.SigningSchemeX509:', '\tswitch signerInfo.SignedAttributes.SigningScheme {\n\tcase signature.SigningSchemeX509SigningAuthority:')),
+ dict(name='single-exit-unknown-revocation-passes', expect='flagged(timestamp/tsa-revocation-ok)',
+      edits=_mut(SHAPE_SINGLE_EXIT, '\tif finalResult != revocationresult.ResultOK {\n', '\tif finalResult == revocationresult.ResultNonRevokable {\n')),
+ # --- shape: library calls
+ dict(name='shape-library-calls', expect='silent', edits=SHAPE_LIBRARY),
+ dict(name='lib-expiry-compare-boundary', expect='flagged(expiry/clock)',
+      edits=_mut(SHAPE_LIBRARY, 'time.Now().Compare(expiry) >= 0 {', 'time.Now().Compare(expiry) > 0 {')),
+ dict(name='lib-expiry-compare-operands-swapped', expect='flagged(expiry/clock)',
+      edits=_mut(SHAPE_LIBRARY, 'time.Now().Compare(expiry) >= 0 {', 'expiry.Compare(time.Now()) >= 0 {')),
+ dict(name='lib-sa-predicate-notbefore-dropped', expect='flagged(signing-authority/window)',
+      edits=_mut(SHAPE_LIBRARY, 'return authenticSigningTime.Compare(cert.NotBefore) < 0 || authenticSigningTime.Compare(cert.NotAfter) > 0', 'return authenticSigningTime.Compare(cert.NotAfter) > 0')),
+ dict(name='lib-sa-predicate-signs-flipped', expect='flagged(signing-authority/window)',
+      edits=_mut(SHAPE_LIBRARY, 'return authenticSigningTime.Compare(cert.NotBefore) < 0 || authenticSigningTime.Compare(cert.NotAfter) > 0', 'return authenticSigningTime.Compare(cert.NotBefore) > 0 || authenticSigningTime.Compare(cert.NotAfter) < 0')),
+ dict(name='lib-sa-search-leaf-only', expect='flagged(signing-authority/window)',
+      edits=_mut(SHAPE_LIBRARY, 'stdslices.IndexFunc(signerInfo.CertificateChain, func', 'stdslices.IndexFunc(signerInfo.CertificateChain[:1], func')),
+ dict(name='lib-sa-index-zero-missed', expect='flagged(signing-authority/window)',
+      edits=_mut(SHAPE_LIBRARY, '\tif invalidCertIndex >= 0 {\n', '\tif invalidCertIndex > 0 {\n')),
+ dict(name='lib-sa-predicate-captured-time-reassigned', expect='flagged(signing-authority/window)',
+      edits=_mut(SHAPE_LIBRARY, '\tinvalidCertIndex := stdslices.IndexFunc(', '\tif authenticSigningTime.IsZero() {\n\t\tauthenticSigningTime = time.Now()\n\t}\n\tinvalidCertIndex := stdslices.IndexFunc(')),
+ dict(name='lib-expired-judged-by-notbefore', expect='flagged(regime/decision-table)',
+      edits=_mut(SHAPE_LIBRARY, '\t\t\treturn timeOfVerification.After(cert.NotAfter)\n', '\t\t\treturn timeOfVerification.After(cert.NotBefore)\n')),
+ dict(name='lib-expired-answer-negated', expect='flagged(regime/decision-table)',
+      edits=_mut(SHAPE_LIBRARY, '\t\texpired := stdslices.ContainsFunc(', '\t\texpired := !stdslices.ContainsFunc(')),
+ dict(name='lib-expired-leaf-only-time-of-signing', expect='flagged(regime/decision-table)',
+      edits=_mut(SHAPE_LIBRARY, '\t\t\treturn timeOfVerification.After(cert.NotAfter)\n', '\t\t\treturn signerInfo.SignedAttributes.SigningTime.After(cert.NotAfter)\n')),
+ dict(name='lib-tsa-prefix-without-separator', expect='flagged(regime/tsa-enabled-helper)',
+      edits=_mut(SHAPE_LIBRARY, '\ttsaPrefix := string(truststore.TypeTSA) + ":"\n', '\ttsaPrefix := string(truststore.TypeTSA)\n')),
+ dict(name='lib-tsa-prefix-of-other-type', expect='flagged(regime/tsa-enabled-helper)',
+      edits=_mut(SHAPE_LIBRARY, '\ttsaPrefix := string(truststore.TypeTSA) + ":"\n', '\ttsaPrefix := string(truststore.TypeSigningAuthority) + ":"\n')),
+ dict(name='lib-tsa-suffix-instead-of-prefix', expect='flagged(regime/tsa-enabled-helper)',
+      edits=_mut(SHAPE_LIBRARY, 'if strings.HasPrefix(trustStore, tsaPrefix) {', 'if strings.Contains(trustStore, tsaPrefix) {')),
+ # --- shape: method of an options struct, signer info by pointer
+ dict(name='shape-method-struct', expect='silent', edits=SHAPE_METHOD),
+ dict(name='method-option-not-from-policy', expect='flagged(regime/decision-table)',
+      edits=_mut(SHAPE_METHOD, '\t\t\tverifyTimestamp:     signatureVerification.VerifyTimestamp,\n', '\t\t\tverifyTimestamp:     trustpolicy.OptionAfterCertExpiry,\n')),
+ dict(name='method-option-overwritten-after-literal', expect='flagged(regime/decision-table)',
+      edits=_mut(SHAPE_METHOD, '\t\t\trevocationValidator: r,\n\t\t}\n', '\t\t\trevocationValidator: r,\n\t\t}\n\t\tif len(trustStores) > 1 {\n\t\t\ttsVerifier.verifyTimestamp = trustpolicy.OptionAfterCertExpiry\n\t\t}\n')),
+ dict(name='method-stores-not-from-policy', expect='flagged(regime/tsa-enabled-helper)',
+      edits=_mut(SHAPE_METHOD, '\t\t\ttrustStores:         trustStores,\n', '\t\t\ttrustStores:         []string{"tsa:default"},\n')),
+ dict(name='method-caller-trims-chain', expect='flagged(regime/valid-now)',
+      edits=_mut(SHAPE_METHOD, '\t\ttsVerifier := timestampVerifier{\n', '\t\tsignerInfo.CertificateChain = signerInfo.CertificateChain[:1]\n\t\ttsVerifier := timestampVerifier{\n')),
+ dict(name='method-callee-trims-chain', expect='flagged(timestamp/window)',
+      edits=_mut(SHAPE_METHOD, 'func (tv timestampVerifier) verify(ctx context.Context, signerInfo *signature.SignerInfo) error {\n\tlogger := log.GetLogger(ctx)\n', 'func (tv timestampVerifier) verify(ctx context.Context, signerInfo *signature.SignerInfo) error {\n\tlogger := log.GetLogger(ctx)\n\tsignerInfo.CertificateChain = signerInfo.CertificateChain[:1]\n')),
+ dict(name='method-other-signer-info', expect='flagged(timestamp/message-imprint)',
+      edits=_mut(SHAPE_METHOD, '\t\t\tError:  tsVerifier.verify(ctx, &signerInfo),\n', '\t\t\tError:  tsVerifier.verify(ctx, &signature.SignerInfo{CertificateChain: signerInfo.CertificateChain, UnsignedAttributes: signerInfo.UnsignedAttributes}),\n')),
+ dict(name='method-sa-time-from-modified-copy', expect='flagged(signing-authority/window)',
+      edits=_mut(SHAPE_METHOD, '\t\t\tError:  tsVerifier.verify(ctx, &signerInfo),\n', '\t\t\tError:  tsVerifier.verify(ctx, &signerInfo),\n', also=[(V, '\tauthenticSigningTime := signerInfo.SignedAttributes.SigningTime\n', '\tif signerInfo.SignedAttributes.SigningTime.IsZero() {\n\t\tsignerInfo.SignedAttributes.SigningTime = time.Now()\n\t}\n\tauthenticSigningTime := signerInfo.SignedAttributes.SigningTime\n')])),
+]
